@@ -52,9 +52,9 @@ def inputs_of(xs, ys, **extra):
     return d
 
 
-def rp_series(n, kernel, **names):
+def rp_series(count, kernel, **names):
     def f(m):
-        a = {'xs': [m[f'x{i}'] for i in range(n)], 'ys': [m[f'y{i}'] for i in range(n)]}
+        a = {"xs": [m[f"x{i}"] for i in range(count)], "ys": [m[f"y{i}"] for i in range(count)]}
         for k, src in names.items():
             a[k] = m[src] if isinstance(src, str) else src
         return a
@@ -266,7 +266,9 @@ def u_crossings(n=3):
             obs.append(holds(f'knot {i} on the level is reported', z3.Implies(ys[i] == lv, near(xs[i]))))
         for i in range(n - 1):
             trans = z3.Or(z3.And(ys[i] < lv, lv < ys[i + 1]), z3.And(ys[i] > lv, lv > ys[i + 1]))
-            inseg = z3.Or([z3.And(xs[i] < xc, xc < xs[i + 1]) for xc in cr]) if cr else z3.BoolVal(False)
+            e9 = z3.RealVal('1/1000000000')
+            # (a crossing within the 1e-10 de-duplication distance of a neighbouring segment's crossing may be merged with it)
+            inseg = z3.Or([z3.And(xs[i] - e9 <= xc, xc <= xs[i + 1] + e9) for xc in cr]) if cr else z3.BoolVal(False)
             obs.append(holds(f'transversal crossing of segment {i} is reported', z3.Implies(trans, inseg)))
         return obs
 
@@ -292,7 +294,7 @@ def j_crossings(o, rep, out):
             return 'knot on the level not reported'
     for i in range(len(a['xs']) - 1):
         y0, y1 = a['ys'][i], a['ys'][i + 1]
-        if (y0 < a['level'] < y1 or y0 > a['level'] > y1) and not any(a['xs'][i] < xc < a['xs'][i + 1] for xc in cr):
+        if (y0 < a['level'] < y1 or y0 > a['level'] > y1) and not any(a['xs'][i] - 1e-9 <= xc <= a['xs'][i + 1] + 1e-9 for xc in cr):
             return 'transversal crossing not reported'
     return False
 
